@@ -815,6 +815,15 @@ func runOnce(c Case, T time.Duration) (v kit.Verdict) {
 		first = early / 2
 	}
 	if _, err := conn.Write(append(append([]byte{}, head...), c2t[:first]...)); err != nil {
+		if c.Unreachable || (c.Shaped && c.Shape != nil) {
+			// A CONNECT that is going to be refused may be answered - and its
+			// connection closed - while the early bytes behind the head are still
+			// being written (record by record on a TLS leg): the refused write is
+			// that close, and the reset it provokes may take the 502 with it. (So may
+			// a shaping action on the listener.) Nothing to judge in this case.
+			kit.Inconclusive("tunnel")
+			return nil
+		}
 		return kit.Failf("C04/harness/write", "%v", err)
 	}
 	if c.Early == "split" && early > first {
@@ -836,6 +845,14 @@ func runOnce(c Case, T time.Duration) (v kit.Verdict) {
 		class := "no-answer-to-connect"
 		if netkit.IsTimeout(err) {
 			class = "timeout-answer-to-connect"
+		}
+		if c.Unreachable && early > 0 && netkit.IsReset(err) {
+			// The early bytes behind a CONNECT that is refused are never read by
+			// anybody: closing the connection with them unread makes the kernel
+			// answer with a reset, which may overtake the 502. The client asked for
+			// that by sending data before it had an answer; not judged.
+			kit.Inconclusive("tunnel")
+			return nil
 		}
 		if c.Unreachable && c.Route == "direct" {
 			return kit.Failf("C04/connect/"+unreachSh+"/"+class, "CONNECT (%s) to an unreachable target (dial returns after %d ms, proxy timeout %d ms; 0 = 60 s): no 502 reached the client: %v", map[string]string{"": "HTTP/1.1"}[c.Head]+c.Head, c.DialDelayMs, c.TimeoutMs, err)
